@@ -208,7 +208,7 @@ def _subproc(job):
         if op[0] == "edit":
             w.edit(op[1])
             return w.snapshot(), None
-        sub = worlds.c18_subprocess_run(w.root, op[1], op[2], op[3], cfg["modules"])
+        sub = w.subprocess_run(op[1], op[2], op[3])
         s_sub = w.snapshot()
         k_sub = w.key(s_sub)
         w.restore(start)
@@ -297,7 +297,7 @@ def _history_as_processes(w, cfg, hist):
             w.edit(op[1])
             probs = []
         else:
-            obs = worlds.c18_subprocess_run(w.root, op[1], op[2], op[3], cfg["modules"])
+            obs = w.subprocess_run(op[1], op[2], op[3])
             probs = judge(cfg, op, obs, {m: v[0] for m, v in w.src.items()}, pre)
     return probs, w.key()
 
@@ -380,7 +380,7 @@ def _run(ctx, tmp, pool, sw):
         states += len(r["seen"])
         transitions += r["stats"]["transitions"]
         stats_all.append(r["stats"])
-        samples += r["samples"][:3]
+        samples += sorted(r["samples"], key=lambda x: (len(x["state_before"]), repr(x)))[:3]
         per_level += r["per_level"]
         cfg_cov.append(
             dict(
